@@ -118,7 +118,7 @@ def random_resp(rng, sc, prep_attempt, weights=None, tagger=None):
         if c < 0.45:
             return [2, myid]
         if c < 0.6:
-            return [2, myid + 1]
+            return [2, myid + rng.choice([1, -1])]
         if c < 0.75:
             return [3, rng.choice([7, 8, 3, 6]), tag]
         return rng.choice([[0], [1], [4, myid, tag], [5, tag], [6, tag], [7]])
